@@ -61,8 +61,10 @@ FAMILIES_QUICK = [("edits", 2), ("wipe", 3), ("lostblob", 3), ("dirs", 2), ("ali
 FAMILIES_THOROUGH = [(f, n * 15) for f, n in FAMILIES_QUICK]
 
 # round-c families (generators in _hist2.py)
-FAMILIES2_QUICK = [("bintool", 2), ("runflip", 2), ("checklost", 3)]
-GEN2 = {"bintool": H2.gen_bintool, "runflip": H2.gen_runflip, "checklost": H2.gen_checklost}
+FAMILIES2_QUICK = [("bintool", 2), ("runflip", 2), ("checklost", 3),
+                   # round d (appended, so that the histories of the families above stay what they were)
+                   ("bintool2", 3), ("ncdep", 3)]
+GEN2 = {"bintool": H2.gen_bintool, "runflip": H2.gen_runflip, "checklost": H2.gen_checklost, "bintool2": H2.gen_bintool2, "ncdep": H2.gen_ncdep}
 
 
 def lost_owners(h, ws):
@@ -98,7 +100,9 @@ def run(ctx):
                             "blob of the middle target lost and its workspace copy removed; dirs = directory outputs whose entry set follows the inputs, "
                             "tampered in place); families: " + ", ".join("%s x%d" % f for f in fams) +
                             "; collector = command-less target whose dir:: output is produced by its dependencies; run = `grog run` of generated binaries (one or two run "
-                            "targets, reverts, wipes); bintool = a tool that only declares a bin_output, used through $(bin :tool), going v1 -> v2 -> v1 while its "
+                            "targets, reverts, wipes); bintool2 = the same shape with a command that does not chmod the tool, the CAS blob of the tool lost and the workspace wiped "
+                            "while the dependant is edited; ncdep = a no-cache dependant of a cacheable dependency that goes v1 -> v2 -> v1 / fresh checkouts; "
+                            "bintool = a tool that only declares a bin_output, used through $(bin :tool), going v1 -> v2 -> v1 while its "
                             "dependant is edited / outputs are wiped; runflip = `grog run` of a target (bin + data output) whose source flips between versions built "
                             "before; checklost = cached targets with output checks lose the checked external state; fanout = one cached dependency with a 600-file directory and several dependants re-running at once; every history "
                             "ends with a mode-all build of everything in both universes (convergence); non-trivial = distinct history with >=2 builds, one executing "
